@@ -16,7 +16,7 @@ extern "C" int vf_run_case(const uint8_t * data, size_t size)
 {
    static CompleteSetupSystem * css = NULL; if (css == NULL) {css = new CompleteSetupSystem; SetConsoleLogLevel(MUSCLE_LOG_NONE);}
    vf::BS bs(data, size);
-   GenOpts opts; Generator gen(bs, opts);
+   GenOpts opts; opts.allowZeroItemFields = true; Generator gen(bs, opts);
    Message msg; MMsg mod; gen.Gen(0, msg, mod);
    const GenStats & st = gen.st;
 
@@ -64,7 +64,10 @@ extern "C" int vf_run_case(const uint8_t * data, size_t size)
       Message m4; const status_t r = m4.UnflattenFromDataIO(io, hdr ? -1 : (int32)fs); if (r.IsError()) vf::Fail("UnflattenFromDataIO(%s) failed: %s", hdr?"size header":"explicit size", r());
       Walk(m4, mod, true, "via DataIO");
    }
-   // (7c) templated codec against the Message's own template
+   // (7c) templated codec against the Message's own template.  A Message holding a field with no items has no template (CreateMessageTemplate() reports an error:
+   // a template field needs at least one item to describe) -- a clean refusal, so the templated route is not taken for those (counted).
+   if (st.hasZeroItemField) vf::Count("templated_route_skipped_zero_item_field");
+   else
    {
       MessageRef tmpl = stripped.CreateMessageTemplate(); if (tmpl() == NULL) vf::Fail("CreateMessageTemplate failed");
       if (tmpl()->TemplateHashCode64() != stripped.TemplateHashCode64()) vf::Fail("a Message and its own template have different template hash codes");
@@ -86,7 +89,7 @@ extern "C" int vf_run_case(const uint8_t * data, size_t size)
    if (st.maxDepth >= 2) vf::Count("case_nesting_ge_2");
    if (st.hasNonFlattenable) vf::Count("case_with_pointer_or_tag_field");
    if (st.hasNaN) vf::Count("case_with_nan"); else vf::Count("case_equality_asserted");
-   if (st.hasZeroLenRaw) vf::Count("case_with_zero_length_raw_item");
+   if (st.hasZeroLenRaw) vf::Count("case_with_zero_length_raw_item"); if (st.hasZeroItemField) vf::Count("case_with_a_field_emptied_through_a_sharing_message");
    if (st.sharedSub) vf::Count("case_with_shared_submessage");
    if (st.maxItems >= 17) vf::Count("case_with_field_of_17_or_more_items");
    if (fs > 2048) vf::Count("case_flattened_over_2048_bytes");
